@@ -40,6 +40,12 @@ instance : RSNum Float where
   asin := Float.asin
   zeroTol := 1e-12
 
+/-- `ZERO = 1e-9`: at unit-radius distances below ~1e-3 the degenerate segment of the optimal word is `ulp(coordinate) / distance`
+(5e-12 at distance 7.7e-5), beyond the `1e-12` of the proposed repair; used only by the driver's `bothfixw` op (finding F440) -/
+@[instance_reducible] def rsFix67w : RSNum Float where
+  asin := Float.asin
+  zeroTol := 1e-9
+
 /-- `ReedsSheppPathSegmentType` -/
 inductive RSeg where
   | N | L | S | R
